@@ -1,5 +1,6 @@
 import FitProps.IntegrityLemmas
 import FitProps.IntegrityAsBuiltLemmas
+import FitProps.IntegrityHeaderLemmas
 /-!
 # C04 — Corrupted or truncated files are rejected, never silently accepted
 
@@ -328,6 +329,77 @@ theorem C04_reference_witness :
   rw [h1, h2] at this
   cases this
 
+/-! ### the 14 header bytes
+
+The theorems above are about everything AFTER the header. For the header itself: the decoder refuses a header whose size
+byte is not 12/14, whose tag is not ".FIT", whose data size is 0, or whose CRC field is non-zero and is not the CRC-16 of
+the twelve bytes before it (`C04_header_checked`); a burst within 16 bits anywhere in the 14 header bytes of an encoder
+output always leaves a CRC field that is NOT the CRC of the corrupted twelve bytes (`C04_header_burst`), so it is
+rejected — by `CheckIntegrity`, `Decode` and the decode loop — unless (a) the corrupted size byte reads 12: then
+`CheckIntegrity` still rejects (`C04_header_size12`; for `Decode` there is no theorem: the first sequence is then judged
+by a records-only checksum over shifted bytes), or (b) the corrupted CRC field reads 0x0000: the code does not check
+the header then. Case (b) with the twelve bytes intact — the burst is exactly the stored header CRC — is ACCEPTED
+(`C04_header_crc_zeroed_accepted`); the integrity rules reject it (file CRC over the whole sequence): it lies inside the
+class of finding KF-C04-1. -/
+
+/-- the file with its 14 header bytes xor-ed with the error pattern `e` (14 bytes) -/
+def corruptHeader (f e : List Nat) : List Nat := xorL (f.take 14) e ++ f.drop 14
+
+/-- **Header check.** Any 14 bytes `H'` in the place of a file header, followed by anything: if the size byte does not
+read 12 and the CRC field (bytes 12, 13) is neither zero nor the CRC-16 of bytes 0..11, then `CheckIntegrity`,
+`Decode` and the decode loop fail (not a FIT file: size byte, tag, zero data size; or header CRC mismatch). -/
+theorem C04_header_checked (H' x : List Nat) (hb : Bytes H') (hl : H'.length = 14) (h12 : H'.head? ≠ some 12)
+    (hk0 : le16 (H'.drop 12) ≠ 0) (hk : le16 (H'.drop 12) ≠ crcSpec 0 (H'.take 12)) : Rejected (H' ++ x) := by
+  obtain ⟨e, he⟩ := header_replaced_error H' x hb hl h12 hk0 hk
+  refine rejected_of_header_error he ?_
+  intro h
+  have := congrArg List.length h
+  simp [hl] at this
+
+/-- **Bursts in the header.** In an encoder output, a non-zero error pattern confined to 16 consecutive bits anywhere
+in the 14 header bytes leaves a header whose CRC field is not the CRC-16 of its first twelve bytes; hence the file is
+rejected by `CheckIntegrity`, `Decode` and the decode loop unless the corrupted size byte reads 12 or the corrupted CRC
+field reads 0x0000 (the two cases of the section comment). -/
+theorem C04_header_burst (f e : List Nat) (hf : IsEncoderOutput14 f) (he : Bytes e) (hl : e.length = 14)
+    (hb : BurstWithin16 e) :
+    le16 ((xorL (f.take 14) e).drop 12) ≠ crcSpec 0 ((xorL (f.take 14) e).take 12) ∧
+    ((xorL (f.take 14) e).head? ≠ some 12 → le16 ((xorL (f.take 14) e).drop 12) ≠ 0 → Rejected (corruptHeader f e)) := by
+  have hI := encoderOutput_intact hf
+  have hcrc := header_burst_crc hI e he hl hb
+  refine ⟨hcrc, fun h12 hk0 => ?_⟩
+  have hfb : Bytes f := hf.1
+  have hl14 : (f.take 14).length = e.length := by
+    obtain ⟨pv, p0, p1, d0, d1, d2, d3, k0, k1, rest, hfe, _⟩ := intact_tail hI
+    rw [hl, hfe]; rfl
+  exact C04_header_checked _ _ (xorL_bytes _ _ (hfb.take 14) he) (by rw [xorL_length _ _ hl14, hl14, hl]) h12 hk0 hcrc
+
+/-- **Size byte reads 12** (e.g. the single-bit flip 14 → 12), the three bytes after it anything: `CheckIntegrity`
+rejects the file — the former header CRC is taken for record bytes and two bytes are left over at the end. -/
+theorem C04_header_size12 (f : List Nat) (hf : IsEncoderOutput14 f) (a b c : Nat) :
+    ∀ n, checkIntegrity (12 :: a :: b :: c :: f.drop 4) ≠ .ok n :=
+  size12_check_rejected (encoderOutput_intact hf) a b c
+
+/-- **The header corruption that is NOT detected** (inside finding KF-C04-1): in an encoder output with at least one
+record byte whose header CRC is not 0x0000, overwrite the CRC field with 0x0000 (a burst of 16 bits) and nothing else.
+`CheckIntegrity` accepts the file as one sequence (the code treats 0 as "not computed" — so does the protocol — and
+then judges the records alone); by the integrity rules the file CRC must cover the whole sequence, which it no longer
+does: the reference rejects, the reference as built accepts, the stream is in the class of KF-C04-1. -/
+theorem C04_header_crc_zeroed_accepted (f : List Nat) (hf : IsEncoderOutput14 f) (hD : 16 < f.length)
+    (hkz : le16 ((f.take 14).drop 12) ≠ 0) :
+    checkIntegrity (f.take 12 ++ [0, 0] ++ f.drop 14) = .ok 1 ∧
+    IntegritySpec.reference (f.take 12 ++ [0, 0] ++ f.drop 14) = .bad 0 ∧
+    IntegritySpec.referenceAsBuilt (f.take 12 ++ [0, 0] ++ f.drop 14) = .ok 1 ∧
+    IntegritySpec.kfC04 (f.take 12 ++ [0, 0] ++ f.drop 14) = true := by
+  obtain ⟨h1, h2⟩ := crc_zeroed (encoderOutput_intact hf) hD hkz
+  have hfb : Bytes f := hf.1
+  have hgb : Bytes (f.take 12 ++ [0, 0] ++ f.drop 14) :=
+    ((hfb.take 12).append (Bytes.cons (by decide) (Bytes.cons (by decide) Bytes.nil))).append (hfb.drop 14)
+  have h3 : IntegritySpec.referenceAsBuilt (f.take 12 ++ [0, 0] ++ f.drop 14) = .ok 1 := by
+    rw [← C04_check_eq_reference_as_built _ hgb, h1]; rfl
+  refine ⟨h1, h2, h3, ?_⟩
+  simp only [IntegritySpec.kfC04, h2, h3, decide_eq_true_eq]
+  intro h; cases h
+
 /-! ### non-vacuity: a concrete encoder output meets the hypotheses -/
 
 /-- a small intact file (file_id and one record, 14-byte header); the real decoder accepts it (corpus/integrity.txt) -/
@@ -352,6 +424,17 @@ example : IntegritySpec.legacyMet sampleFit = false ∧ IntegritySpec.kfC04 samp
     IntegritySpec.reference sampleFit = .ok 1 := by decide +kernel
 example : IntegritySpec.legacyMet (settingsFit.take 40) = true ∧ IntegritySpec.kfC04 (settingsFit.take 40) = false ∧
     IntegritySpec.kfC04 ([0x0c] ++ sampleFit.drop 1) = false := by decide +kernel
+
+/-- C04_header_burst on the sample: a single flipped bit of the data size (byte 4) is a burst; size byte and CRC field are
+untouched (so neither exception applies) and the corrupted file is rejected, by evaluation too -/
+example : BurstWithin16 ([0, 0, 0, 0, 1] ++ List.replicate 9 0) ∧
+    (xorL (sampleFit.take 14) ([0, 0, 0, 0, 1] ++ List.replicate 9 0)).head? ≠ some 12 ∧
+    le16 ((xorL (sampleFit.take 14) ([0, 0, 0, 0, 1] ++ List.replicate 9 0)).drop 12) ≠ 0 ∧
+    checkIntegrity (corruptHeader sampleFit ([0, 0, 0, 0, 1] ++ List.replicate 9 0)) = .err .crc 0 :=
+  ⟨⟨32, 1, by decide +kernel, by decide, by decide⟩, by decide +kernel, by decide +kernel, by decide +kernel⟩
+/-- C04_header_crc_zeroed_accepted on the sample (header CRC 0xAEF8 ≠ 0), by evaluation -/
+example : le16 ((sampleFit.take 14).drop 12) ≠ 0 ∧ checkIntegrity (sampleFit.take 12 ++ [0, 0] ++ sampleFit.drop 14) = .ok 1 ∧
+    IntegritySpec.reference (sampleFit.take 12 ++ [0, 0] ++ sampleFit.drop 14) = .bad 0 := by decide +kernel
 
 /-- the sample with a 12-byte header, sealed as this SDK seals it (file CRC over the records only) -/
 def legacySample : List Nat := [0x0c,0x20,0x5c,0x08,0x1d,0x00,0x00,0x00,0x2e,0x46,0x49,0x54] ++ sampleFit.drop 14
